@@ -110,25 +110,6 @@ let bed_of (a : string array) =
     b_strand = (match a.(6) with "+" -> Some true | "-" -> Some false | _ -> None);
     b_others = others }
 
-let bed_obs a =
-  let r = bed_of a in
-  match bed_write r with
-  | Err e -> "W=Err:" ^ err_name e
-  | Panic -> "W=Panic"
-  | Ok line ->
-      let rd = match bed_read r.b_n (line @ [lf]) with
-        | BNoRecord -> "NoLine"
-        | BErr e -> "Err:" ^ err_name e
-        | BRec l ->
-            String.concat "|"
-              [ hex_of_bytes l.lb_name; res_str dec_of_n l.lb_start;
-                (match l.lb_end with None -> "." | Some r -> res_str dec_of_n r);
-                (match l.lb_nm with None -> "-" | Some s -> hex_of_bytes s);
-                res_str dec_of_n l.lb_score;
-                res_str (function None -> "." | Some true -> "+" | Some false -> "-") l.lb_strand;
-                (if l.lb_others = [] then "-" else String.concat "," (List.map hex_of_bytes l.lb_others)) ] in
-      "W=" ^ hex_of_bytes line ^ "|R=" ^ rd
-
 (* ---- BED at record level (NV.Text.BedRec) ---- *)
 let hexs l = if l = [] then "-" else String.concat "," (List.map hex_of_bytes l)
 let strand_s = function None -> "." | Some true -> "+" | Some false -> "-"
@@ -170,6 +151,21 @@ let bedfile_obs (a : string array) =
       "W=" ^ hex_of_bytes text ^ "|R=" ^
       String.concat ";" (List.map (function
         | Ok v -> view_str v ^ "/" ^ owned_str nn v
+        | Err e -> "Err:" ^ err_name e
+        | Panic -> "Panic") views)
+
+(* one record through bed_write, then the record-level reader (the older split_all reader model
+   of NV.Text.Bed is retired) *)
+let bed_obs (a : string array) =
+  let r = bed_of a in
+  match bed_write r with
+  | Err e -> "W=Err:" ^ err_name e
+  | Panic -> "W=Panic"
+  | Ok line ->
+      let views = bed_read_file (nat_of_int 3) r.b_n (line @ [lf]) (bed_default r.b_n) in
+      "W=" ^ hex_of_bytes line ^ "|R=" ^
+      String.concat ";" (List.map (function
+        | Ok v -> view_str v ^ "/" ^ owned_str r.b_n v
         | Err e -> "Err:" ^ err_name e
         | Panic -> "Panic") views)
 
@@ -293,6 +289,145 @@ let gtfcom_obs (a : string array) =
   ^ "|L=" ^ joined (List.map gtline_str (gtf_file_lines no_prs text))
   ^ "|O=" ^ joined (List.map gtbuf_str (gtf_file_line_bufs no_prs text))
 
+(* ---- typed directive values (NV.Text.GffDirValue) ---- *)
+let ierr_name = function
+  | IEmpty -> "Empty" | IInvalidDigit -> "InvalidDigit" | IPosOverflow -> "PosOverflow" | IZero -> "Zero"
+let optn = function None -> "-" | Some x -> dec_of_n x
+
+let version_res = function
+  | POk ((ma, mi), pa) -> "Ok:" ^ dec_of_n ma ^ "," ^ optn mi ^ "," ^ optn pa
+  | PErr VEmpty -> "Err:Empty"
+  | PErr (VInvalidMajor e) -> "Err:InvalidMajor:" ^ ierr_name e
+  | PErr (VInvalidMinor e) -> "Err:InvalidMinor:" ^ ierr_name e
+  | PErr (VInvalidPatch e) -> "Err:InvalidPatch:" ^ ierr_name e
+
+let region_res = function
+  | POk ((nm, s), e) -> "Ok:" ^ hex_of_bytes nm ^ "," ^ dec_of_n s ^ "," ^ dec_of_n e
+  | PErr REmpty -> "Err:Empty"
+  | PErr RMissingName -> "Err:MissingName"
+  | PErr RMissingStart -> "Err:MissingStart"
+  | PErr (RInvalidStart e) -> "Err:InvalidStart:" ^ ierr_name e
+  | PErr RMissingEnd -> "Err:MissingEnd"
+  | PErr (RInvalidEnd e) -> "Err:InvalidEnd:" ^ ierr_name e
+
+let build_res = function
+  | POk (src, nm) -> "Ok:" ^ hex_of_bytes src ^ "," ^ hex_of_bytes nm
+  | PErr BEmpty -> "Err:Empty"
+  | PErr BMissingSource -> "Err:MissingSource"
+  | PErr BMissingName -> "Err:MissingName"
+
+let dirval_obs (a : string array) =
+  let t = bytes_of_hex a.(0) in
+  "V=" ^ version_res (parse_gff_version t) ^ "|R=" ^ region_res (parse_sequence_region t)
+  ^ "|G=" ^ build_res (parse_genome_build t)
+
+let optdec s = if s = "-" then None else Some (n_of_dec s)
+
+(* args: key kind a b c *)
+let directive_of (a : string array) (o : int) : directive =
+  let value = match a.(o + 1) with
+    | "N" -> None
+    | "S" -> Some (DString (bytes_of_hex a.(o + 2)))
+    | "V" ->
+        let mi = match optdec a.(o + 3) with None -> None | Some m -> Some (m, optdec a.(o + 4)) in
+        Some (DVersion (n_of_dec a.(o + 2), mi))
+    | "R" -> Some (DRegion (bytes_of_hex a.(o + 2), n_of_dec a.(o + 3), n_of_dec a.(o + 4)))
+    | "G" -> Some (DBuild (bytes_of_hex a.(o + 2), bytes_of_hex a.(o + 3)))
+    | _ -> failwith "directive kind" in
+  { d_key = bytes_of_hex a.(o); d_value = value }
+
+let typed_str = function
+  | TBNone -> "N"
+  | TBVersion r -> "V:" ^ version_res r
+  | TBRegion r -> "R:" ^ region_res r
+  | TBBuild r -> "G:" ^ build_res r
+  | TBString s -> "S:" ^ hex_of_bytes s
+
+let gffdv_obs (a : string array) =
+  let d = directive_of a 0 in
+  match gff_write_directive_r d with
+  | Err e -> "W=Err:" ^ err_name e
+  | Panic -> "W=Panic"
+  | Ok line ->
+      "W=" ^ hex_of_bytes line ^ "|T=" ^
+      (match directive_typed_readback d with
+       | Ok (Some t) -> typed_str t
+       | Ok None -> "?"
+       | Err e -> "Err:" ^ err_name e
+       | Panic -> "Panic")
+
+(* ---- whole files (NV.Text.GffFile) ---- *)
+(* the f32 oracle pair of a file: every (bits, Display text) of its records *)
+let file_items (a : string array) =
+  let pairs = ref [] in
+  let items = Array.to_list (Array.map (fun arg ->
+    let p = Array.of_list (split_on ' ' arg) in
+    match p.(0) with
+    | "R" ->
+        let f = Array.sub p 1 9 in
+        (if f.(5) <> "." then begin
+          let i = String.index f.(5) ':' in
+          pairs := (n_of_dec (String.sub f.(5) 0 i),
+                    bytes_of_hex (String.sub f.(5) (i + 1) (String.length f.(5) - i - 1))) :: !pairs
+        end);
+        let (r, _, _) = feature_of f in
+        `R r
+    | "D" -> `D (directive_of p 1)
+    | "C" -> `C (bytes_of_hex p.(1))
+    | "B" -> `B (bytes_of_hex p.(1))
+    | _ -> failwith "file item") a) in
+  let ps = !pairs in
+  let fmt b = try List.assoc b ps with Not_found -> [] in
+  let prs t = try Some (fst (List.find (fun (_, x) -> x = t) ps)) with Not_found -> None in
+  (items, fmt, prs)
+
+let gfffile_obs (a : string array) =
+  let (items, fmt, prs) = file_items a in
+  let items = List.map (function `R r -> FRecord r | `D d -> FDirective d | `C s -> FComment s | `B s -> FRaw s) items in
+  match gff_write_file fmt items with
+  | Err e -> "W=Err:" ^ err_name e
+  | Panic -> "W=Panic"
+  | Ok text ->
+      let bufs = gff_file_line_bufs prs text in
+      "W=" ^ hex_of_bytes text
+      ^ "|L=" ^ joined (List.map gline_str (gff_file_lines prs text))
+      ^ "|O=" ^ joined (List.map gbuf_str bufs)
+      ^ "|B=" ^ joined (List.map (res_str feature_str) (gff_record_bufs bufs))
+
+let gtffile_obs (a : string array) =
+  let (items, fmt, prs) = file_items a in
+  let items = List.map (function `R r -> TFRecord r | `C s -> TFComment s | _ -> failwith "gtf item") items in
+  match gtf_write_file fmt items with
+  | Err e -> "W=Err:" ^ err_name e
+  | Panic -> "W=Panic"
+  | Ok text ->
+      let bufs = gtf_file_line_bufs prs text in
+      "W=" ^ hex_of_bytes text
+      ^ "|L=" ^ joined (List.map gtline_str (gtf_file_lines prs text))
+      ^ "|O=" ^ joined (List.map gtbuf_str bufs)
+      ^ "|B=" ^ joined (List.map (res_str feature_str) (gtf_record_bufs bufs))
+
+(* ---- GFF3 attribute column as a map (NV.Text.GffAttrMap) ---- *)
+let val_str = function
+  | VString s -> "S:" ^ hex_of_bytes s
+  | VArray l -> "A:" ^ String.concat "," (List.map hex_of_bytes l)
+
+let gffattr_obs (a : string array) =
+  let col = bytes_of_hex a.(0) in
+  let absent = List.map n_of_int [1; 97; 98; 115; 101; 110; 116] in
+  let (((items, e), gets), owned) = gff_attr_views col absent in
+  let istr =
+    match e with
+    | None -> fmt_attrs items
+    | Some r ->
+        let es = res_str (fun _ -> "?") r in
+        if items = [] then es else fmt_attrs items ^ ";" ^ es in
+  let g = String.concat "," (List.map (fun ((t, lz), ow) ->
+    hex_of_bytes t ^ ":" ^
+    (match lz with None -> "None" | Some r -> res_str val_str r) ^ ":" ^
+    res_str (function None -> "None" | Some v -> val_str v) ow) gets) in
+  "I=" ^ istr ^ "|G=" ^ g ^ "|M=" ^ res_str fmt_attrs owned
+
 let handle kind a =
   match kind with
   | "gff" -> Some (gff_obs true a)
@@ -308,6 +443,11 @@ let handle kind a =
   | "gffcom" -> Some (gffcom_obs a)
   | "gtfline" -> Some (gtfline_obs a)
   | "gtfcom" -> Some (gtfcom_obs a)
+  | "dirval" -> Some (dirval_obs a)
+  | "gffdv" -> Some (gffdv_obs a)
+  | "gfffile" -> Some (gfffile_obs a)
+  | "gtffile" -> Some (gtffile_obs a)
+  | "gffattr" -> Some (gffattr_obs a)
   | _ -> None
 
 let () = run_driver handle
